@@ -182,6 +182,18 @@ def build_schema(rng, fmt, redundant, neutral=True):
         smem.append(S.Member('g%d' % j, 'u16', S.FIXED, ev, size_text=en))
         items.append({'role': 'array-size', 'name': 'SX.g%d' % j, 'member': 'g%d' % j, 'kind': S.FIXED,
                       'tree': E.Name(en, ev), 'value': ev, 'text': en})
+    if isar:
+        # isar's two-dimensional arrays (size x size2, flattened to the product), static and limited; every dimension
+        # is a name or a literal
+        atoms = [(E.Name('EM_A', a_), 'EM_A'), (E.Name('EM_B', a_ + 1), 'EM_B'), (E.Lit(2, 10), '2'), (E.Lit(3, 10), '3'),
+                 (E.Lit(4, 10), '4')]
+        for j, (tp, kind) in enumerate((('u8', S.FIXED), ('u16', S.LIMITED))):
+            (t1, x1), (t2, x2) = rng.choice(atoms), rng.choice(atoms)
+            tree = E.Bin('*', t1, t2)
+            v = E.evaluate(tree)
+            smem.append(S.Member('h%d' % j, tp, kind, v, size_text='%s*%s' % (x1, x2), isar_dims=(x1, x2)))
+            items.append({'role': 'array-size', 'name': 'SX.h%d' % j, 'member': 'h%d' % j, 'kind': kind, 'tree': tree,
+                          'value': v, 'text': '%s*%s' % (x1, x2)})
     sch.add(S.Struct('SX', smem))
     arms = []
     used = set()
